@@ -55,3 +55,24 @@ def oldlen(ex, st, lst):
 @specfunc("trunc")
 def trunc(ex, st, x):
     return V(INT, ops.real_trunc(ops.to_real_term(x)))
+
+
+def _ssum_fn(ex):
+    R_ = z3.RealSort()
+    f = z3.Function("ssum", z3.ArraySort(I, R_), z3.ArraySort(I, z3.BoolSort()), I, R_)
+    if ("axiom", "ssum") not in ex.__dict__.setdefault("_axiom_keys", set()):
+        ex._axiom_keys.add(("axiom", "ssum"))
+        c = z3.Const("ss_c", z3.ArraySort(I, R_))
+        m = z3.Const("ss_m", z3.ArraySort(I, z3.BoolSort()))
+        n = z3.Int("ss_n")
+        ex.axioms.append(z3.ForAll([c, m, n], z3.Implies(n <= 0, f(c, m, n) == 0), patterns=[f(c, m, n)]))
+        ex.axioms.append(z3.ForAll([c, m, n], z3.Implies(n > 0, f(c, m, n) == f(c, m, n - 1) + z3.If(m[n - 1], -c[n - 1], c[n - 1])), patterns=[f(c, m, n)]))
+        ex.recdefs[f] = lambda cc, mm, nn, f=f: z3.If(nn <= 0, z3.RealVal(0), f(cc, mm, nn - 1) + z3.If(mm[nn - 1], -cc[nn - 1], cc[nn - 1]))
+    return f
+
+
+@specfunc("ssum")
+def ssum(ex, st, comps, minimize, n):
+    """ssum(c, m, n) = sum over k < n of (-c[k] if m[k] else c[k]): the property's default multi-objective aggregate"""
+    f = _ssum_fn(ex)
+    return V(REAL, f(ex.larr(st, comps), ex.larr(st, minimize), ops.to_int_term(n)))
